@@ -112,7 +112,7 @@ def gen_cases(tier, seed):
     for i, (rm, mm, rc, mc, segk, crc) in enumerate(itertools.product(("ack", "unack", None), ("ack", "unack"), (True, False, None), (True, False),
                                                                       ("none", "below", "below1", "above", "above1", "equal"), (False, True))):
         cases.append({"t": "table", "rm": rm, "mm": mm, "rc": rc, "mc": mc, "segk": segk, "crc": crc, "idw": 1 + (i // 8) % 2})
-    kinds = ("same", "other_file", "missing_source", "unknown_dest", "metadata_only", "third_entity")
+    kinds = ("same", "other_file", "missing_source", "unknown_dest", "metadata_only", "third_entity", "metadata_only_binary_msgs")
     for mode, closure, size in (("ack", False, 9), ("unack", True, 9), ("unack", False, 4), ("ack", True, 0)):
         cfg = {"mode": mode, "closure": closure, "size": size, "seg": 4, "fs": "mem"}
         for k in range(0, 14):
@@ -153,6 +153,11 @@ def second_request(w: World, kind: str) -> PutRequest:
         return PutRequest(ByteFieldGenerator.from_int(w.cfg["dst_idw"], 99), w.src_path, w.dst_req_path, None, None)
     if kind == "metadata_only":
         return PutRequest(w.dst_id, None, None, None, None)
+    if kind == "metadata_only_binary_msgs":
+        # a metadata-only request whose messages to user are binary data (not UTF-8, longer than the reserved prefix)
+        from spacepackets.cfdp.tlv import MessageToUserTlv
+
+        return PutRequest(w.dst_id, None, None, None, None, msgs_to_user=[MessageToUserTlv(b"\xff\xfe\x00\x01\x02"), MessageToUserTlv(bytes(range(200, 240)))])
     if kind == "third_entity":
         # a valid request towards another known entity whose remote configuration differs in every parameter
         return PutRequest(w.third_id, w.src_path, w.dst_req_path, None, None)
